@@ -1167,7 +1167,8 @@ impl Acl {
     let mut total = 0;
 
     for (_, allowed_users) in self.allow_lists.iter() {
-      total += allowed_users.len();
+      // A domain without users is a bare-domain entry and is reported as one allow-list entry.
+      total += allowed_users.len().max(1);
     }
 
     total
